@@ -77,7 +77,8 @@ def gen_patching(rng, depth=0, maxdepth=3, logics=True, ignore=True, special=Tru
             params.append("%global")
         if special and kind < 0.15:
             params.append("%ordered")
-        elif special and kind < 0.25:
+        elif special and kind < 0.25 and depth > 0:
+            # as in the shipped rulebooks, %rewrite rules live inside a block ("xpl ~ / ~ %rewrite %global")
             params.append("%rewrite")
         elif logics and kind < 0.45:
             params.append("%logic=" + rng.choice(LOGICS))
